@@ -26,7 +26,7 @@ var hashObjectCmd = &cobra.Command{
 		for _, arg := range args {
 			// check if arg is valid
 			f, err := os.Stat(arg)
-			if os.IsNotExist(err) {
+			if err != nil {
 				return fmt.Errorf(`fatal: Cannot open '%s': No such file`, arg)
 			}
 			if f.IsDir() {
